@@ -13,7 +13,7 @@ LEAF_KINDS = ['linear'] * 5 + ['conv'] * 4 + ['linear', 'linear', 'linear_nobias
               'flatten', 'bn', 'ln', 'embedding', 'paramleaf', 'identity', 'bilinear', 'conv1d', 'lazyname']
 CONTAINERS = ['seq', 'modlist', 'moddict', 'custom']
 FREEZE = ['none', 'none', 'none', 'none', 'weight', 'bias', 'all']
-NAME_POOL = ['fc', 'conv', 'head', 'block', 'layer1', 'proj', 'embed', 'skip_me', 'a', 'b0', 'linear', 'Linear', 'x_1']
+NAME_POOL = ['fc', 'fc2', 'fc_out', 'conv', 'conv_bn', 'head', 'head2', 'block', 'block1', 'layer1', 'proj', 'proj_out', 'embed', 'skip_me', 'a', 'a1', 'b0', 'linear', 'Linear', 'x_1']
 
 
 def _tree(depth, draw_min=2):
@@ -24,7 +24,8 @@ def _tree(depth, draw_min=2):
     child = st.deferred(lambda: _tree(depth - 1, 1))
     cont = st.fixed_dictionaries({
         't': st.sampled_from(CONTAINERS),
-        'names': st.lists(st.sampled_from(NAME_POOL), min_size=0, max_size=4, unique=True),
+        'names': st.one_of(st.lists(st.sampled_from(NAME_POOL), min_size=0, max_size=5, unique=True),
+                          st.sampled_from([['fc', 'fc2'], ['fc', 'fc_out', 'fc2'], ['conv', 'conv_bn'], ['proj', 'proj_out'], ['a', 'a1', 'b0'], ['head', 'head2'], ['block', 'block1', 'fc']])),
         'children': st.lists(child, min_size=draw_min, max_size=5),
     })
     return st.one_of(leaf, cont, cont) if draw_min == 1 else cont
@@ -68,7 +69,7 @@ def _gpt_case(draw):
         if depth == 0:
             return leaf
         child = st.deferred(lambda: node(depth - 1))
-        cont = st.fixed_dictionaries({'t': st.sampled_from(CONTAINERS), 'names': st.lists(st.sampled_from(['mlp', 'attention', 'dense_h_to_4h', 'dense_4h_to_h', 'query_key_value', 'dense', 'final']), max_size=4, unique=True),
+        cont = st.fixed_dictionaries({'t': st.sampled_from(CONTAINERS), 'names': st.lists(st.sampled_from(['mlp', 'attention', 'dense_h_to_4h', 'dense_4h_to_h', 'query_key_value', 'dense', 'dense_4h', 'final', 'final_linear']), max_size=4, unique=True),
                                       'children': st.lists(child, min_size=1, max_size=5)})
         return st.one_of(leaf, cont, cont)
     tree = draw(st.fixed_dictionaries({'t': st.just('custom'), 'names': st.just([]), 'children': st.lists(node(draw(st.sampled_from([0, 1, 2]))), min_size=1, max_size=5)}))
